@@ -172,6 +172,7 @@ class Engine:
         self.forced_unknown = False
         self.outcome = []
         self.notes = []
+        self.fp_mode = False
 
     # ---- variables
     def new_var(self, name, kind, info=None):
@@ -234,7 +235,19 @@ class Engine:
         st.queries += 1
         t = time.time()
         res = 'unknown'
-        if Engine.prefer_nlsat < 2:
+        if self.fp_mode:
+            # one-shot solver per query: z3's non-incremental pipeline (simplify, bit-blast, SAT) is far stronger on
+            # QF_BVFP than the incremental core
+            s1 = z3.Solver()
+            s1.set('timeout', self.timeout_ms)
+            for c in self.pc:
+                s1.add(c)
+            for c in extra:
+                s1.add(c)
+            res = str(s1.check())
+            if res == 'sat':
+                self._last_model = s1.model()
+        elif Engine.prefer_nlsat < 2:
             r = self.solver.check(*extra)
             res = str(r)
             if res == 'sat':
